@@ -59,7 +59,7 @@ type exprCase struct {
 	msgs map[string][]string // checker -> messages (emission order)
 }
 
-type constProbe struct{ msg, text, want string }
+type constProbe struct{ msg, text, want, kind string }
 
 var claimCheckers = []string{"sloppyLen", "badCond", "offBy1", "dupSubExpr", "dupArg"}
 
@@ -352,9 +352,27 @@ func runExprClaims(meta *common.Meta, seed int64, outDir string, n int) {
 	// instances every run contains: self-comparisons of every float-like operand kind (predeclared, defined,
 	// complex, defined complex, struct field, type conversion), operands that are equal expressions but distinct
 	// objects (addresses of composite literals)
+	var fixed []string
 	for _, e := range []string{"p != p", "mf != mf", "mf == mf", "mf <= mf", "cx != cx", "cx == cx", "mc != mc", "mc2 == mc2", "w.g != w.g", "float64(mf) != float64(mf)",
 		"myF(p) == myF(p)", "fa[0] != fa[0]", "&st{a} == &st{a}", "&st{a} != &st{a}", "&myArr{a} == &myArr{a}", "&a == &a", "pa == pa", "pe != pe",
 		"-p == -p", "p - p == 0", "mf - mf == 0", "cx - cx == 0"} {
+		fixed = append(fixed, e)
+	}
+	// ... and self-combinations over EVERY basic kind and a defined type over each kind
+	for _, t := range []string{"float32", "float64", "myF32", "myF"} {
+		for _, o := range []string{"==", "!=", "<=", ">=", "<", ">"} {
+			fixed = append(fixed, t+"(p) "+o+" "+t+"(p)")
+		}
+		fixed = append(fixed, t+"(p) - "+t+"(p) == 0", t+"(p) / "+t+"(p) == 1")
+	}
+	for _, t := range []string{"complex64", "complex128", "myC64", "myC"} {
+		fixed = append(fixed, t+"(cx) == "+t+"(cx)", t+"(cx) != "+t+"(cx)", t+"(cx) - "+t+"(cx) == 0", t+"(cx) / "+t+"(cx) == 1")
+	}
+	for _, t := range []string{"int8", "int16", "int32", "int64", "uint", "uint8", "uint16", "uint32", "uint64", "uintptr", "myI8", "myU16"} {
+		fixed = append(fixed, t+"(a) == "+t+"(a)", t+"(a) >= "+t+"(a)", t+"(a) - "+t+"(a) == 0", t+"(a) ^ "+t+"(a) == 0")
+	}
+	fixed = append(fixed, "cF != cF", "cF == cF", "1.5 <= 1.5", "cLim >= cLim", "cS == cS", "cF - cF == 0")
+	for _, e := range fixed {
 		if seen[e] {
 			continue
 		}
@@ -540,13 +558,24 @@ func runExprClaims(meta *common.Meta, seed int64, outDir string, n int) {
 		dc.Inputs = exprgen.Grid(rg, text, 120)
 		dcs = append(dcs, dc)
 		if b, ok := node.(*ast.BinaryExpr); ok && f.checker == "dupSubExpr" && !impureCallRe.MatchString(text) {
+			// the operand kinds the checker itself exempts (predeclared float types, untyped float constants) get
+			// their own defect key: a report there is not the recorded finding about defined / complex operands
+			kind := ""
+			if bt, ok := l.Info.TypeOf(b.X).(*types.Basic); ok && bt.Info()&types.IsFloat != 0 {
+				kind = "-predeclared-float"
+			}
 			switch b.Op {
 			case token.EQL, token.NEQ, token.LSS, token.GTR, token.LEQ, token.GEQ:
 				// a comparison of an operand with itself is reported because it is pointless, i.e. constant:
 				// observe whether it takes both truth values (the x != x NaN idiom)
 				for _, want := range []string{"true", "false"} {
-					dcs = append(dcs, &exprgen.DiffCase{ID: len(dcs), Kind: "expr", Orig: text, Expect: want, Inputs: dc.Inputs, Tag: constProbe{f.text, text, want}})
+					dcs = append(dcs, &exprgen.DiffCase{ID: len(dcs), Kind: "expr", Orig: text, Expect: want, Inputs: dc.Inputs, Tag: constProbe{f.text, text, want, kind}})
 				}
+			case token.SUB, token.REM, token.XOR, token.AND_NOT:
+				// x - x, x % x, x ^ x, x &^ x are reported because they are zero
+				dcs = append(dcs, &exprgen.DiffCase{ID: len(dcs), Kind: "expr", Orig: "(" + text + ") == 0", Expect: "true", Inputs: dc.Inputs, Tag: constProbe{f.text, text, "zero", kind}})
+			case token.QUO:
+				dcs = append(dcs, &exprgen.DiffCase{ID: len(dcs), Kind: "expr", Orig: "(" + text + ") == 1", Expect: "true", Inputs: dc.Inputs, Tag: constProbe{f.text, text, "one", kind}})
 			}
 		}
 	}
@@ -561,17 +590,22 @@ func runExprClaims(meta *common.Meta, seed int64, outDir string, n int) {
 	notTrue, notFalse := map[string]exprgen.Mismatch{}, map[string]exprgen.Mismatch{}
 	for _, m := range mm {
 		if cp, ok := m.Case.Tag.(constProbe); ok {
-			if cp.want == "true" {
+			switch cp.want {
+			case "true":
 				notTrue[cp.text] = m
-			} else {
+			case "false":
 				notFalse[cp.text] = m
+			default:
+				meta.Fail("C12/dupSubExpr/self-comparison-not-constant"+cp.kind,
+					fmt.Sprintf("dupSubExpr reports %q on `%s` (an operand combined with itself, reported because the result is the constant %s), but `%s` evaluated to %s: the float exemption does not recognise the operand", cp.msg, cp.text, cp.want, m.Case.Orig, m.Orig),
+					map[string]interface{}{"expr": cp.text, "message": cp.msg, "input": m.Input, "observed": m.Orig})
 			}
 		}
 	}
 	for text, m1 := range notTrue {
 		if m2, ok := notFalse[text]; ok {
 			cp := m1.Case.Tag.(constProbe)
-			meta.Fail("C12/dupSubExpr/self-comparison-not-constant",
+			meta.Fail("C12/dupSubExpr/self-comparison-not-constant"+cp.kind,
 				fmt.Sprintf("dupSubExpr reports %q on `%s`, which is the NaN test of a float operand the exemption does not recognise: it evaluates to %s and to %s", cp.msg, text, m1.Orig, m2.Orig),
 				map[string]interface{}{"expr": text, "message": cp.msg, "input_a": m1.Input, "value_a": m1.Orig, "input_b": m2.Input, "value_b": m2.Orig})
 		}
@@ -608,7 +642,7 @@ func runExprClaims(meta *common.Meta, seed int64, outDir string, n int) {
 
 // operands the model has no counterpart for: maps, pointers to arrays, complex numbers, opaque calls returning a
 // defined type, struct values with methods, package variables changed by calls, closures, interface-typed fields
-var outsideFragmentRe = regexp.MustCompile(`\b(gxs|fa|mc|mc2|fmf|vv|it|val|gn|bumpG|func|refill|err|cx|st|myArr|myF|float64|pe)\b|(?:^|[^&])&[A-Za-z(]`)
+var outsideFragmentRe = regexp.MustCompile(`\b(gxs|fa|mc|mc2|fmf|vv|it|val|gn|bumpG|func|refill|err|cx|st|myArr|myF|float64|pe|float32|complex64|complex128|myF32|myC64|myC|myI8|myU16|u?int(?:8|16|32|64|ptr)?)\b|(?:^|[^&])&[A-Za-z(]`)
 
 var impureCallRe = regexp.MustCompile(`\b(fi|gi|hi|fu|ff|hf|fs|fb|fbs|fxs|fmf|Next)\(`)
 var mutatingRe = regexp.MustCompile(`refill\(\)|bumpG\(\)|func\(\) bool`)
@@ -1010,6 +1044,7 @@ type nvrCase struct {
 	rets               []string
 	pre                []string // statements before the return
 	pro                string   // statements before the if (a declaration that shadows nil)
+	body               string   // when set: the whole function body (other statement shapes than if-return)
 	resT, final        string
 	msgs               []string
 }
@@ -1120,6 +1155,38 @@ func runNilValReturn(meta *common.Meta, seed int64, outDir string) {
 		c.fn = fmt.Sprintf("n%d", len(cases))
 		cases = append(cases, c)
 	}
+	// other statement shapes around the same question: else branches, guard-then-return sequences, nested ifs, nil
+	// on the left, and if-initialisers that declare a variable hiding the outer one of the same name
+	for _, id := range []struct{ x, resT, init string }{
+		{"xs", "[]int", "[]int(nil)"}, {"xs", "[]int", "fxs()"}, {"pe", "*myE", "(*myE)(nil)"}, {"pe", "error", "(*myE)(nil)"}, {"mi", "myInts", "myInts(nil)"},
+		{"w.err", "error", ""}, {"w.buf", "[]int", ""},
+	} {
+		x := id.x
+		shapes := []string{
+			"if " + x + " != nil {\n\t\ta++\n\t} else {\n\t\treturn " + x + "\n\t}\n\treturn nil",
+			"if nil != " + x + " {\n\t\ta++\n\t} else {\n\t\treturn " + x + "\n\t}\n\treturn nil",
+			"if nil == " + x + " {\n\t\treturn " + x + "\n\t}\n\treturn nil",
+			"if " + x + " != nil {\n\t\treturn " + x + "\n\t}\n\treturn " + x,
+			"if " + x + " == nil {\n\t\ta++\n\t} else {\n\t\treturn " + x + "\n\t}\n\treturn " + x,
+			"if k {\n\t\tif " + x + " == nil {\n\t\t\treturn " + x + "\n\t\t}\n\t}\n\treturn nil",
+			"if " + x + " == nil {\n\t\treturn " + x + "\n\t} else if k {\n\t\treturn " + x + "\n\t}\n\treturn " + x,
+		}
+		if id.init != "" {
+			shapes = append(shapes,
+				"if "+x+" := "+id.init+"; "+x+" != nil {\n\t\treturn "+x+"\n\t}\n\treturn "+x,
+				"if "+x+" := "+id.init+"; "+x+" == nil {\n\t\treturn "+x+"\n\t}\n\treturn "+x,
+				"if "+x+" := "+id.init+"; "+x+" != nil {\n\t\ta++\n\t} else {\n\t\treturn "+x+"\n\t}\n\treturn "+x,
+				"if "+x+" := "+id.init+"; "+x+" != nil {\n\t\ta++\n\t}\n\tif "+x+" != nil {\n\t\treturn "+x+"\n\t}\n\treturn "+x)
+		}
+		for _, b := range shapes {
+			c := &nvrCase{resT: id.resT, final: "nil", x: x, y: "nil", op: "==", cond: "(shape)", rets: []string{x}, body: b}
+			if _, err := exprgen.Load("p.go", lintHeader+exprgen.LintPreamble+renderNvr("f", c)); err != nil {
+				continue
+			}
+			c.fn = fmt.Sprintf("n%d", len(cases))
+			cases = append(cases, c)
+		}
+	}
 	var src strings.Builder
 	src.WriteString(lintHeader + exprgen.LintPreamble)
 	for _, c := range cases {
@@ -1137,9 +1204,11 @@ func runNilValReturn(meta *common.Meta, seed int64, outDir string) {
 	for _, c := range cases {
 		byFn[c.fn] = c
 	}
+	warnsOf := map[string][]linter.Warning{}
 	for _, w := range ws {
 		if c := byFn[l.FuncOf(w.Pos)]; c != nil {
 			c.msgs = append(c.msgs, strings.ReplaceAll(w.Text, " ", ""))
+			warnsOf[c.fn] = append(warnsOf[c.fn], w)
 		}
 	}
 	conv := exprgen.NewConv(l.Info, l.File)
@@ -1161,45 +1230,66 @@ func runNilValReturn(meta *common.Meta, seed int64, outDir string) {
 				break
 			}
 		}
-		cond := ifs.Cond.(*ast.BinaryExpr)
-		// oracle: run the if-body up to the return and observe whether the checked value is nil there
-		if len(c.msgs) > 0 {
+		// oracle: EVERY diagnostic, wherever it lands — the claim is about the return statement at the diagnostic's
+		// position and the expression the message names.  The function body is run with that return instrumented
+		// (nil-ness judged by a helper declared where nil is the predeclared identifier).
+		if len(warnsOf[c.fn]) > 0 {
 			nflag++
-			pre := strings.Join(c.pre, "; ")
-			if pre != "" {
-				pre += "; "
+		}
+		bodyStart := l.Fset.Position(fd.Body.Pos()).Offset
+		bodySrc := l.Text(fd.Body)
+		resT := ""
+		if fd.Type.Results != nil {
+			resT = l.Text(fd.Type.Results)
+		}
+		for _, w := range warnsOf[c.fn] {
+			mm := nvrMsgRe.FindStringSubmatch(w.Text)
+			var rs *ast.ReturnStmt
+			ast.Inspect(fd.Body, func(n ast.Node) bool {
+				if r, ok := n.(*ast.ReturnStmt); ok && r.Pos() == w.Pos {
+					rs = r
+				}
+				return rs == nil
+			})
+			if mm == nil || rs == nil {
+				meta.Fail("C12/nilValReturn/position", "the diagnostic does not stand on a return statement or has an unknown message shape",
+					map[string]interface{}{"function": renderNvr(c.fn, c), "message": w.Text})
+				continue
 			}
-			pro := c.pro
-			if pro != "" {
-				pro += "; "
-			}
-			// nil-ness is judged by a helper declared where `nil` is the predeclared identifier
-			// the claim is about what the return statement returns: one of its results must be nil there
-			var obs []string
-			for _, rt := range c.rets {
-				obs = append(obs, "verifIsNil("+rt+")")
-			}
-			text := "func() bool { " + pro + "if " + c.cond + " { " + pre + "return " + strings.Join(obs, " || ") + " }; return true }()"
-			found := false
-			for _, rt := range c.rets {
-				if strings.ReplaceAll(rt, " ", "") == strings.ReplaceAll(l.Text(cond.X), " ", "") {
-					found = true
+			x := mm[1]
+			squash := func(t string) string { return strings.Join(strings.Fields(t), "") }
+			hit := -1
+			for ri, r := range rs.Results {
+				if squash(l.Text(r)) == squash(x) {
+					hit = ri
 				}
 			}
-			if !found {
+			if hit < 0 {
 				meta.Fail("C12/nilValReturn/replacement-not-in-return",
-					fmt.Sprintf("nilValReturn says %q for `%s; if %s { return %s }`: the expression to replace does not occur among the returned expressions", c.msgs[0], c.pro, c.cond, strings.Join(c.rets, ", ")),
-					map[string]interface{}{"prologue": c.pro, "cond": c.cond, "returns": c.rets, "message": c.msgs[0]})
+					fmt.Sprintf("nilValReturn says %q on `%s`: the expression to replace does not occur among the returned expressions", w.Text, l.Text(rs)),
+					map[string]interface{}{"function": renderNvr(c.fn, c), "return": l.Text(rs), "message": w.Text})
 			}
-			dcs = append(dcs, &exprgen.DiffCase{ID: len(dcs), Kind: "expr", Orig: text, Expect: "true", Inputs: exprgen.Grid(rg, text, 40), Tag: c})
+			from, to := l.Fset.Position(rs.Pos()).Offset-bodyStart, l.Fset.Position(rs.End()).Offset-bodyStart
+			instr := bodySrc[:from] + "{ verifOK = verifOK && verifIsNil(" + x + "); " + bodySrc[from:to] + " }" + bodySrc[to:]
+			text := "func() bool { verifOK := true; func() " + resT + " " + instr + "(); return verifOK }()"
+			dcs = append(dcs, &exprgen.DiffCase{ID: len(dcs), Kind: "expr", Orig: text, Expect: "true", Inputs: exprgen.Grid(rg, text, 40), Tag: nvrObs{c, w.Text, l.Text(rs)}})
 			// "replace X with nil": the function's result as the caller sees it, before and after the replacement
-			if len(c.rets) == 1 && c.rets[0] == l.Text(cond.X) {
-				fn := func(ret string) string {
-					return "func() string { r := func() " + c.resT + " { " + pro + "if " + c.cond + " { " + pre + "return " + ret + " }; return " + c.final +
-						" }(); return fmt.Sprintf(\"%v|%t\", r, r == nil) }()"
+			if hit >= 0 && len(rs.Results) == 1 && fd.Type.Results != nil && fd.Type.Results.NumFields() == 1 {
+				fn := func(body string) string {
+					return "func() string { r := func() " + resT + " " + body + "(); return fmt.Sprintf(\"%v|%t\", r, r == nil) }()"
 				}
-				dcs = append(dcs, &exprgen.DiffCase{ID: len(dcs), Kind: "expr", Orig: fn(c.rets[0]), New: fn("nil"), Inputs: exprgen.Grid(rg, text, 40), Tag: c})
+				repl := bodySrc[:from] + "return nil" + bodySrc[to:]
+				dcs = append(dcs, &exprgen.DiffCase{ID: len(dcs), Kind: "expr", Orig: fn(bodySrc), New: fn(repl), Inputs: exprgen.Grid(rg, text, 40), Tag: nvrObs{c, w.Text, l.Text(rs)}})
 			}
+		}
+		if ifs == nil {
+			oracleOnly++
+			continue
+		}
+		cond, isBin := ifs.Cond.(*ast.BinaryExpr)
+		if !isBin {
+			oracleOnly++
+			continue
 		}
 		// tie: only operands of the model's fragment (w.err / w.buf are struct fields)
 		xt, err := conv.Expr(cond.X)
@@ -1227,7 +1317,11 @@ func runNilValReturn(meta *common.Meta, seed int64, outDir string) {
 		}
 		bodies = append(bodies, fmt.Sprintf("({| nvr_single_return := %v; nvr_op_is_eq := %v; nvr_y_is_nil := %v; nvr_x := %s; nvr_results := [%s] |}, %s)",
 			single, cond.Op == token.EQL, yNil, xt, strings.Join(results, "; "), coqfmt.StrList(c.msgs)))
-		idx = append(idx, fmt.Sprintf("if %s { %v; return %v } => %q", c.cond, c.pre, c.rets, c.msgs))
+		if c.body != "" {
+			idx = append(idx, fmt.Sprintf("%s => %q", strings.Join(strings.Fields(c.body), " "), c.msgs))
+		} else {
+			idx = append(idx, fmt.Sprintf("%s; if %s { %v; return %v } => %q", c.pro, c.cond, c.pre, c.rets, c.msgs))
+		}
 	}
 	common.WriteFile(filepath.Join(outDir, "cases_c12_nilvalreturn.v"),
 		"From GC Require Import Base Model_Expr Model_BoolSimp Model_Claims.\n"+
@@ -1247,7 +1341,8 @@ func runNilValReturn(meta *common.Meta, seed int64, outDir string) {
 	}
 	meta.Evaluations += evals
 	for _, m := range mm {
-		c := m.Case.Tag.(*nvrCase)
+		o := m.Case.Tag.(nvrObs)
+		c := o.c
 		class := "unclassified"
 		if len(c.pre) > 0 {
 			class = "mutated-before-return"
@@ -1258,14 +1353,21 @@ func runNilValReturn(meta *common.Meta, seed int64, outDir string) {
 		if m.Case.Expect == "" {
 			// the suggested replacement changes what the caller gets
 			meta.Fail("C12/nilValReturn/typed-nil-in-interface",
-				fmt.Sprintf("nilValReturn: in `func() %s { if %s { return %s } ... }` replacing %s with nil changes the result: %s vs %s", c.resT, c.cond, c.rets[0], c.rets[0], m.Orig, m.New),
-				map[string]interface{}{"cond": c.cond, "result_type": c.resT, "input": m.Input, "original": m.Orig, "with_nil": m.New})
+				fmt.Sprintf("nilValReturn says %q on `%s` in a function with result type %s: replacing the expression with nil changes the result: %s vs %s", o.msg, o.ret, c.resT, m.Orig, m.New),
+				map[string]interface{}{"function": renderNvr(c.fn, c), "result_type": c.resT, "input": m.Input, "original": m.Orig, "with_nil": m.New})
 			continue
 		}
-		meta.Fail("C12/nilValReturn/"+class, fmt.Sprintf("nilValReturn claims the returned %s is nil in `%s; if %s { %s; return %s }`, but it is not nil at the return (%s)", c.x, c.pro, c.cond, strings.Join(c.pre, "; "), strings.Join(c.rets, ", "), m.Orig),
-			map[string]interface{}{"prologue": c.pro, "cond": c.cond, "body": append(append([]string{}, c.pre...), "return "+strings.Join(c.rets, ", ")), "input": m.Input, "observed": m.Orig})
+		meta.Fail("C12/nilValReturn/"+class, fmt.Sprintf("nilValReturn says %q on `%s`, but the named expression is not nil when that return statement runs; function: %s", o.msg, o.ret, strings.Join(strings.Fields(renderNvr(c.fn, c)[strings.Index(renderNvr(c.fn, c), ") ")+2:]), " ")),
+			map[string]interface{}{"function": renderNvr(c.fn, c), "return": o.ret, "message": o.msg, "input": m.Input, "observed": m.Orig})
 	}
 }
+
+type nvrObs struct {
+	c        *nvrCase
+	msg, ret string
+}
+
+var nvrMsgRe = regexp.MustCompile(`^returned expr is always nil; replace (.*) with nil$`)
 
 func renderNvr(name string, c *nvrCase) string {
 	pre := ""
@@ -1275,6 +1377,9 @@ func renderNvr(name string, c *nvrCase) string {
 	pro := ""
 	if c.pro != "" {
 		pro = "\t" + c.pro + "\n"
+	}
+	if c.body != "" {
+		return fmt.Sprintf("func %s(%s) %s {\n\t%s\n}\n", name, exprgen.Params, c.resT, c.body)
 	}
 	return fmt.Sprintf("func %s(%s) %s {\n%s\tif %s {\n%s\t\treturn %s\n\t}\n\treturn %s\n}\n", name, exprgen.Params, c.resT, pro, c.cond, pre, strings.Join(c.rets, ", "), c.final)
 }
